@@ -229,8 +229,20 @@ def run(chk):
         if len(b) >= 16 and b[0] in (2, 10):
             for dl in (0, 1, 15, 16, 17, 27, 28, 29, 40):
                 add("nrt %s %d" % (hx(b), dl), "nrt")
+    # ---- lengths well beyond the structures: what callers really pass (sizeof (struct sockaddr_storage) = 128, a page, 64 KiB)
+    for ln in (41, 64, 127, 128, 129, 255, 256, 1024, 4096, 65535, 65536, 100000):
+        for h, body in (([2, 0], [0x1f, 0x90, 127, 0, 0, 1]), ([10, 0], [0x1f, 0x90, 0, 0, 0, 1] + [0] * 15 + [1, 9, 0, 0, 0]), ([1, 0], [1, 2, 3]), ([2, 1], [0] * 6)):
+            b = bytes((h + body + [rng.randrange(256) for _ in range(64)])[:ln]) + bytes(max(0, ln - 70 - len(body)))
+            b = b[:ln] + bytes(ln - len(b[:ln]))
+            add("fromnative " + hx(b), "fromnative:big-len")
+            if h[0] in (2, 10) and h[1] == 0:
+                for dl in (ln, 128, 16, 28, 27):
+                    add("nrt %s %d" % (hx(b), dl), "nrt:big")
     # ---- to native: every destination length 0..40, both families
     s6 = structured_v6(rng)
+    for dl in (41, 64, 127, 128, 129, 256, 4096, 65535, 65536, 2**20):
+        add("tonative %s %d" % (v4([10, 1, 2, 3], rport(rng)), dl), "tonative:big-dest")
+        add("tonative %s %d" % (v6(s6[12], rport(rng), ru32(rng), ru32(rng)), dl), "tonative:big-dest")
     for dl in range(0, 41):
         for a in ([127, 0, 0, 1], [0, 0, 0, 0], [255, 255, 255, 255], [rng.randrange(256) for _ in range(4)]):
             add("tonative %s %d" % (v4(a, rport(rng)), dl), "tonative:v4")
@@ -291,7 +303,7 @@ def run(chk):
         return finish(chk)
     found, corr, thm = diffrun.campaign(chk, fam, cases, proof_ok, detail, signature_of, "C17", batch=40)
     diffrun.conclude(chk, found, corr, thm, proof_ok and driver_ok, detail, "C17 socket address conversions")
-    chk.cov["exhaustive_small_scope"] = {"native_lengths": "0..40 x 15 family heads x 5 fills", "tonative_destlen": "0..40 x 8 addresses",
+    chk.cov["exhaustive_small_scope"] = {"native_lengths": "0..40 x 15 family heads x 5 fills; 41..100000 (12 lengths incl. 128 = sockaddr_storage) x 4 heads", "tonative_big_dest": "41..2^20 (10 lengths)", "tonative_destlen": "0..40 x 8 addresses",
                                          "ipv4_boundary_octets": n4}
     chk.cov["rule"] = ("op lines (one library call sequence each) grouped 50 to a case; exact-size heap buffers of every length 0..40 for "
                        "from-native, every destination length 0..40 for to-native, IPv4 octets in {0,1,126,127,128,254,255}^4 exhaustively plus %d random "
